@@ -10,8 +10,9 @@ HERE = os.path.dirname(os.path.abspath(__file__))
 SRC = open(os.path.join(HERE, 'harness', 'c12_mem.cpp')).read()
 
 
-def harness(n, cs, tl):
-    return '#define VP_FS_CAP 60000\n#define NOBJ %d\n#define CFG_CONTAINER %d\n#define TEXTLEN %d\n' % (n, cs, tl) + SRC
+def harness(n, cs, tl, corrupt=None):
+    return '#define VP_FS_CAP 60000\n#define NOBJ %d\n#define CFG_CONTAINER %d\n#define TEXTLEN %d\n' % (n, cs, tl) + \
+        ('#define CORRUPT_OBJECT %d\n' % corrupt if corrupt is not None else '') + SRC
 
 
 def tasks(tier, seed):
@@ -22,23 +23,26 @@ def tasks(tier, seed):
         # both files must be long enough to saturate the back-pressure thresholds (buffer = cs + tl, 2 queued objects)
         lo = (4 * (2 * cs + tl)) // (tl + 48) + 2
         return (lo, 3 * lo) if tier == 'quick' else (lo, 3 * lo, 6 * lo)
-    for cs, tl in cfgs:
+    variants = [(cs, tl, None) for cs, tl in cfgs] + [(cs, tl, 2) for cs, tl in cfgs[:1 if tier == 'quick' else 2]]
+    for cs, tl, corrupt in variants:
         sizes = sizes_for(cs, tl)
+        sfx = '' if corrupt is None else '.corrupt%d' % corrupt
         for n in sizes:
-            txt = harness(n, cs, tl)
+            txt = harness(n, cs, tl, corrupt)
 
-            def native_growth(cs=cs, tl=tl, sizes=sizes):
+            def native_growth(cs=cs, tl=tl, sizes=sizes, corrupt=corrupt):
                 peaks = []
                 for k in sizes:
-                    nr = framework.native_run(harness(k, cs, tl), 'h_mem', [], timeout=60)
+                    nr = framework.native_run(harness(k, cs, tl, corrupt), 'h_mem', [], timeout=60)
                     d = dict(nr['notes'])
                     peaks.append((d.get('read_peak', 0), d.get('write_peak', 0)))
                 grow = peaks[-1][0] > peaks[0][0] + cs + tl + 1024 or peaks[-1][1] > peaks[0][1] + cs + tl + 1024
                 return grow, 'native live-heap peaks (read, write) for N=%s: %s' % (list(sizes), peaks)
-            ts.append(Task('mem.c%d_t%d.n%d' % (cs, tl, n), txt, 'h_mem', None,
+            ts.append(Task('mem.c%d_t%d%s.n%d' % (cs, tl, sfx, n), txt, 'h_mem', None,
                            opts=dict(validate=False, extra=['zlib_stub.cpp'], limit_is_hang=True, max_steps=60000000, max_wall=1500,
                                      native_growth=native_growth),
-                           desc='%d AppText objects with %d symbolic text bytes, container size %d (objects %s containers): '
+                           desc=('object %d of the file is malformed (declared size 0) and the File stays open after the end was reported; ' % corrupt if corrupt is not None else '') +
+                                '%d AppText objects with %d symbolic text bytes, container size %d (objects %s containers): '
                                 'peak live heap of the library during a slow-producer write session and a read session' % (
                                     n, tl, cs, 'span several' if tl + 48 > cs else 'are smaller than'),
                            reach=('h_mem:end',), bounds='N = %d objects' % n,
@@ -46,10 +50,11 @@ def tasks(tier, seed):
 
     def post(res):
         out = []
-        for cs, tl in cfgs:
+        for cs, tl, corrupt in variants:
+            sfx = '' if corrupt is None else '.corrupt%d' % corrupt
             peaks = {}
             for n in sizes_for(cs, tl):
-                r = res.get('mem.c%d_t%d.n%d' % (cs, tl, n))
+                r = res.get('mem.c%d_t%d%s.n%d' % (cs, tl, sfx, n))
                 if not r or not r.get('notes'):
                     continue
                 d = dict(r['notes'][0])
@@ -61,7 +66,7 @@ def tasks(tier, seed):
                 a, b = peaks[lo][idx], peaks[hi][idx]
                 # bounded means: independent of N up to one container / one object of slack
                 if b > a + cs + tl + 1024:      # slack: one container, one object, one 512-byte deque node of the queue
-                    out.append(('mem.c%d_t%d.n%d' % (cs, tl, hi), dict(
+                    out.append(('mem.c%d_t%d%s.n%d' % (cs, tl, sfx, hi), dict(
                         kind='growth', msg='peak live heap while %s grows with the number of objects: %s' % (
                             what, ', '.join('N=%d: %d B' % (k, peaks[k][idx]) for k in sorted(peaks))),
                         where='post', extra={}, inputs=[])))
